@@ -1,0 +1,10 @@
+//go:build verif
+
+package keeper
+
+// VerifGlobals exposes the oracle's process-global in-memory state (aggregator context, its
+// CheckTx copy, the caches and the list of updated feeders) to a verification harness, which
+// only reads it to compute a digest.
+func VerifGlobals() (agcDeliver interface{}, agcCheck interface{}, caches interface{}, updated []string) {
+	return agc, agcCheckTx, cs, updatedFeederIDs
+}
